@@ -16,26 +16,7 @@ does them (LP64, two's complement, gcc's modular conversion to a narrower signed
 Floating-point targets are in `Model/ParsenumFloat.lean`.
 -/
 namespace Percival.Model.Parsenum
-open Percival.Spec.Numeral Percival.Model.Strto
-
-/-- integer target types (`size_t`, `uintmax_t` = `u64`; `intmax_t` = `i64`; `int` = `i32`) -/
-inductive IntTy
-  | i8 | i16 | i32 | i64 | u8 | u16 | u32 | u64
-  deriving DecidableEq, Repr
-
-def IntTy.bits : IntTy → Nat
-  | .i8 | .u8 => 8
-  | .i16 | .u16 => 16
-  | .i32 | .u32 => 32
-  | .i64 | .u64 => 64
-
-def IntTy.signed : IntTy → Bool
-  | .i8 | .i16 | .i32 | .i64 => true
-  | _ => false
-
-/-- least / greatest value of the type -/
-def IntTy.lo (t : IntTy) : Int := if t.signed then -(2 ^ (t.bits - 1)) else 0
-def IntTy.hi (t : IntTy) : Int := if t.signed then 2 ^ (t.bits - 1) - 1 else 2 ^ t.bits - 1
+open Percival.Spec.Numeral Percival.Spec.Parsenum Percival.Model.Strto
 
 /-- conversion of a mathematical integer to the type (what `*x = v` leaves in `*x`) -/
 def store (t : IntTy) (v : Int) : Int :=
@@ -48,38 +29,23 @@ def probeFloat (t : IntTy) : Bool := store t (store t 1 / 2) > 0
 /-- `((*x = -1) > 0)`: true for unsigned targets -/
 def probeUnsigned (t : IntTy) : Bool := store t (-1) > 0
 
-/-- a bound as the macro sees it: a value of type `intmax_t` or `uintmax_t` -/
-inductive CVal
-  | s (v : Int)      -- intmax_t
-  | u (v : Nat)      -- uintmax_t
-  deriving Repr, DecidableEq
-
-def CVal.Valid : CVal → Prop
-  | .s v => IMIN ≤ v ∧ v ≤ IMAX
-  | .u v => v ≤ UMAX
-
-/-- the mathematical value of the bound -/
-def CVal.toInt : CVal → Int
-  | .s v => v
-  | .u v => (v : Int)
-
 /-- `(b) <= 0` -/
-def CVal.le0 : CVal → Bool
+def _root_.Percival.Spec.Parsenum.CVal.le0 : CVal → Bool
   | .s v => v ≤ 0
   | .u v => v = 0
 
 /-- `(uintmax_t)(b)` -/
-def CVal.toUmax : CVal → Nat
+def _root_.Percival.Spec.Parsenum.CVal.toUmax : CVal → Nat
   | .s v => (v % 2 ^ 64).toNat
   | .u v => v
 
 /-- `(intmax_t)(b)` -/
-def CVal.toImax : CVal → Int
+def _root_.Percival.Spec.Parsenum.CVal.toImax : CVal → Int
   | .s v => v
   | .u v => ((v : Int) + 2 ^ 63) % 2 ^ 64 - 2 ^ 63
 
 /-- `(b) <= INTMAX_MAX` (usual arithmetic conversions) -/
-def CVal.leImax : CVal → Bool
+def _root_.Percival.Spec.Parsenum.CVal.leImax : CVal → Bool
   | .s _ => true
   | .u v => (v : Int) ≤ IMAX
 
